@@ -36,8 +36,52 @@ KINDS = [("oct", 8), ("oct", 128), ("oct", 192), ("oct", 256), ("oct", 384), ("o
          ("OKP", "Ed25519"), ("OKP", "Ed448"), ("OKP", "X25519"), ("OKP", "X448")]
 
 JWS_ENTRIES = ["JSerCompact", "JDesCompact", "JSerFlat", "JSerGen", "JDesFlat", "JDesGen",
-               "J97SerCompact", "J97DesCompact", "J97SerJson", "J97DesJson", "JwtEncode", "JwtDecode"]
-JWS_SIGN = {"JSerCompact", "JSerFlat", "JSerGen", "J97SerCompact", "J97SerJson", "JwtEncode"}
+               "J97SerCompact", "J97DesCompact", "J97SerJson", "J97DesJson", "JwtEncode", "JwtDecode",
+               "JValCompact", "J97SerCompactB64", "J97DesCompactB64", "J97SerJsonB64", "J97DesJsonB64"]
+JWS_SIGN = {"JSerCompact", "JSerFlat", "JSerGen", "J97SerCompact", "J97SerJson", "JwtEncode",
+            "J97SerCompactB64", "J97SerJsonB64"}
+# every public key-taking function of the API and the entries that exercise it (fail closed at run time)
+ENTRY_TABLE = {
+    "joserfc.jws": {"serialize_compact": ["JSerCompact"], "deserialize_compact": ["JDesCompact"],
+                    "validate_compact": ["JValCompact"], "serialize_json": ["JSerFlat", "JSerGen"],
+                    "deserialize_json": ["JDesFlat", "JDesGen"]},
+    "joserfc.rfc7797": {"serialize_compact": ["J97SerCompact", "J97SerCompactB64"],
+                        "deserialize_compact": ["J97DesCompact", "J97DesCompactB64"],
+                        "serialize_json": ["J97SerJson", "J97SerJsonB64"],
+                        "deserialize_json": ["J97DesJson", "J97DesJsonB64"]},
+    "joserfc.jwe": {"encrypt_compact": ["EEncCompact"], "decrypt_compact": ["EDecCompact"],
+                    "encrypt_json": ["EEncFlat", "EEncGen", "EEncFlatPre", "EEncGenPre", "multi-enc"],
+                    "decrypt_json": ["EDecFlat", "EDecGen", "multi-dec"]},
+    "joserfc.jwt": {"encode": ["JwtEncode", "EJwtEncode"], "decode": ["JwtDecode", "EJwtDecode"]},
+    "joserfc.jwk": {"guess_key": ["(every entry point resolves its key through guess_key)"]},
+}
+KEY_PARAM_NAMES = {"key", "private_key", "public_key", "sender_key"}
+
+
+def untabled_entry_points():
+    """public callables (per __all__) that take a key and are not in ENTRY_TABLE"""
+    import importlib, inspect
+    missing, seen = [], 0
+    for modname, table in ENTRY_TABLE.items():
+        mod = importlib.import_module(modname)
+        for name in getattr(mod, "__all__", []):
+            f = getattr(mod, name, None)
+            if not inspect.isfunction(f):
+                continue
+            try:
+                params = set(inspect.signature(f).parameters)
+            except (TypeError, ValueError):
+                continue
+            if params & KEY_PARAM_NAMES:
+                seen += 1
+                if name not in table:
+                    missing.append("%s.%s(%s)" % (modname, name, ", ".join(sorted(params))))
+        for name in table:
+            if not callable(getattr(mod, name, None)):
+                missing.append("%s.%s is tabled but no longer exists" % (modname, name))
+    return missing, seen
+
+
 JWE_ENTRIES = ["EEncCompact", "EDecCompact", "EEncFlat", "EEncGen", "EDecFlat", "EDecGen",
                "EEncFlatPre", "EEncGenPre", "EJwtEncode", "EJwtDecode"]
 JWE_ENC = {"EEncCompact", "EEncFlat", "EEncGen", "EEncFlatPre", "EEncGenPre", "EJwtEncode"}
@@ -233,42 +277,66 @@ PAYLOAD = "hi"                 # URL-safe: the rfc7797 compact form keeps it att
 CLAIMS = {"a": 1}
 
 
-def h7797(alg):
-    return {"alg": alg, "b64": False, "crit": ["b64"]}
+DECOYS = {}
 
 
-def as_src(key, src):
-    from joserfc.jwk import KeySet
+def as_src(key, src, shared=None):
+    """the key argument of the call.  shared: dict kept over a history (one KeySet object reused)"""
+    from joserfc.jwk import KeySet, OctKey
     if src == "SrcSet":
+        if shared is not None:
+            if shared.get("set_of") is not key:
+                shared["set"], shared["set_of"] = KeySet([key]), key
+            return shared["set"]
         return KeySet([key])
+    if src == "SrcKid":            # kid-selected from a set that also holds another key
+        if "decoy" not in DECOYS:
+            DECOYS["decoy"] = OctKey(b"decoy-decoy-decoy", b"decoy-decoy-decoy", {"kid": "decoy"})
+        return KeySet([DECOYS["decoy"], key])
     if src == "SrcCall":
         return lambda obj: key
+    if src == "SrcText":
+        return key.raw_value
+    if src == "SrcTextCall":
+        return lambda obj: key.raw_value
     return key
 
 
-def jws_make_token(entry, alg, refkey):
+def hdr(alg, kid=None, **extra):
+    h = {"alg": alg}
+    if kid:
+        h["kid"] = kid
+    h.update(extra)
+    return h
+
+
+def h7797(alg, kid=None, b64=False):
+    return hdr(alg, kid, b64=b64, crit=["b64"])
+
+
+def jws_make_token(entry, alg, refkey, kid=None):
     """a token for the verifying entry point, made with refkey; returns (token, siglen)"""
     from joserfc import jws, jwt
     from joserfc.rfc7797 import serialize_compact as sc97, serialize_json as sj97
     from joserfc.util import urlsafe_b64decode
     A = [alg]
-    if entry == "JDesCompact":
-        t = jws.serialize_compact({"alg": alg}, PAYLOAD, refkey, algorithms=A)
+    if entry in ("JDesCompact", "JValCompact"):
+        t = jws.serialize_compact(hdr(alg, kid), PAYLOAD, refkey, algorithms=A)
         sig = t.split(".")[2]
     elif entry == "JwtDecode":
-        t = jwt.encode({"alg": alg}, dict(CLAIMS), refkey, algorithms=A)
+        t = jwt.encode(hdr(alg, kid), dict(CLAIMS), refkey, algorithms=A)
         sig = t.split(".")[2]
     elif entry == "JDesFlat":
-        t = jws.serialize_json({"protected": {"alg": alg}}, PAYLOAD, refkey, algorithms=A)
+        t = jws.serialize_json({"protected": hdr(alg, kid)}, PAYLOAD, refkey, algorithms=A)
         sig = t["signature"]
     elif entry == "JDesGen":
-        t = jws.serialize_json([{"protected": {"alg": alg}}], PAYLOAD, refkey, algorithms=A)
+        t = jws.serialize_json([{"protected": hdr(alg, kid)}], PAYLOAD, refkey, algorithms=A)
         sig = t["signatures"][0]["signature"]
-    elif entry == "J97DesCompact":
-        t = sc97(h7797(alg), PAYLOAD, refkey, algorithms=A)
+    elif entry in ("J97DesCompact", "J97DesCompactB64"):
+        t = sc97(h7797(alg, kid, entry.endswith("B64")), PAYLOAD, refkey, algorithms=A)
         sig = t.split(".")[2]
-    elif entry == "J97DesJson":
-        t = sj97({"protected": h7797(alg)}, PAYLOAD, refkey, algorithms=A)
+    elif entry in ("J97DesJson", "J97DesJsonB64"):
+        t = sj97({"protected": h7797(alg, kid, entry.endswith("B64"))}, PAYLOAD, refkey, algorithms=A)
         sig = t["signature"]
     else:
         raise KeyError(entry)
@@ -293,78 +361,90 @@ def cut_sig(entry, token):
     return t
 
 
-def jws_call(entry, alg, keyarg, token):
+def jws_call(entry, alg, keyarg, token, kid=None, reg=None):
+    """reg: a (shared) registry object to use instead of algorithms=[alg]"""
     from joserfc import jws, jwt
+    from joserfc.errors import BadSignatureError
     from joserfc.rfc7797 import (serialize_compact as sc97, deserialize_compact as dc97,
                                  serialize_json as sj97, deserialize_json as dj97)
-    A = [alg]
+    K = {"registry": reg} if reg is not None else {"algorithms": [alg]}
+    cp = lambda x: json.loads(json.dumps(x))        # noqa
+    b64 = entry.endswith("B64")
     if entry == "JSerCompact":
-        return lambda: jws.serialize_compact({"alg": alg}, PAYLOAD, keyarg, algorithms=A)
+        return lambda: jws.serialize_compact(hdr(alg, kid), PAYLOAD, keyarg, **K)
     if entry == "JwtEncode":
-        return lambda: jwt.encode({"alg": alg}, dict(CLAIMS), keyarg, algorithms=A)
+        return lambda: jwt.encode(hdr(alg, kid), dict(CLAIMS), keyarg, **K)
     if entry == "JSerFlat":
-        return lambda: jws.serialize_json({"protected": {"alg": alg}}, PAYLOAD, keyarg, algorithms=A)
+        return lambda: jws.serialize_json({"protected": hdr(alg, kid)}, PAYLOAD, keyarg, **K)
     if entry == "JSerGen":
-        return lambda: jws.serialize_json([{"protected": {"alg": alg}}], PAYLOAD, keyarg, algorithms=A)
-    if entry == "J97SerCompact":
-        return lambda: sc97(h7797(alg), PAYLOAD, keyarg, algorithms=A)
-    if entry == "J97SerJson":
-        return lambda: sj97({"protected": h7797(alg)}, PAYLOAD, keyarg, algorithms=A)
+        return lambda: jws.serialize_json([{"protected": hdr(alg, kid)}], PAYLOAD, keyarg, **K)
+    if entry in ("J97SerCompact", "J97SerCompactB64"):
+        return lambda: sc97(h7797(alg, kid, b64), PAYLOAD, keyarg, **K)
+    if entry in ("J97SerJson", "J97SerJsonB64"):
+        return lambda: sj97({"protected": h7797(alg, kid, b64)}, PAYLOAD, keyarg, **K)
     if entry == "JDesCompact":
-        return lambda: jws.deserialize_compact(token, keyarg, algorithms=A)
+        return lambda: jws.deserialize_compact(token, keyarg, **K)
+    if entry == "JValCompact":
+        def val():
+            obj = jws.extract_compact(token.encode())
+            if not jws.validate_compact(obj, keyarg, **K):
+                raise BadSignatureError()
+            return obj
+        return val
     if entry == "JwtDecode":
-        return lambda: jwt.decode(token, keyarg, algorithms=A)
+        return lambda: jwt.decode(token, keyarg, **K)
     if entry in ("JDesFlat", "JDesGen"):
-        return lambda: jws.deserialize_json(json.loads(json.dumps(token)), keyarg, algorithms=A)
-    if entry == "J97DesCompact":
-        return lambda: dc97(token, keyarg, algorithms=A)
-    if entry == "J97DesJson":
-        return lambda: dj97(json.loads(json.dumps(token)), keyarg, algorithms=A)
+        return lambda: jws.deserialize_json(cp(token), keyarg, **K)
+    if entry in ("J97DesCompact", "J97DesCompactB64"):
+        return lambda: dc97(token, keyarg, **K)
+    if entry in ("J97DesJson", "J97DesJsonB64"):
+        return lambda: dj97(cp(token), keyarg, **K)
     raise KeyError(entry)
 
 
-def jwe_obj(entry, alg, enc, key=None):
+def jwe_obj(entry, alg, enc, key=None, kid=None):
     from joserfc.jwe import GeneralJSONEncryption, FlattenedJSONEncryption
     cls = FlattenedJSONEncryption if "Flat" in entry else GeneralJSONEncryption
     obj = cls({"alg": alg, "enc": enc}, b"hello")
-    obj.add_recipient(None, key)
+    obj.add_recipient({"kid": kid} if kid else None, key)
     return obj
 
 
-def jwe_make_token(entry, alg, enc, refkey, refsender):
-    from joserfc import jwe, jwt
-    from joserfc.jwe import JWERegistry
+def jwe_make_token(entry, alg, enc, refkey, refsender, kid=None):
+    from joserfc import jwe
     A = [alg, enc]
     if entry == "EDecCompact":
-        return jwe.encrypt_compact({"alg": alg, "enc": enc}, b"hello", refkey, algorithms=A, sender_key=refsender)
+        return jwe.encrypt_compact(hdr(alg, kid, enc=enc), b"hello", refkey, algorithms=A, sender_key=refsender)
     if entry == "EJwtDecode":
         # jwt.encode has no sender_key: make the JWT by hand
-        return jwe.encrypt_compact({"typ": "JWT", "alg": alg, "enc": enc}, json.dumps(CLAIMS), refkey,
+        return jwe.encrypt_compact(hdr(alg, kid, enc=enc, typ="JWT"), json.dumps(CLAIMS), refkey,
                                    algorithms=A, sender_key=refsender)
     if entry in ("EDecFlat", "EDecGen"):
-        return jwe.encrypt_json(jwe_obj(entry, alg, enc), refkey, algorithms=A, sender_key=refsender)
+        return jwe.encrypt_json(jwe_obj(entry, alg, enc, kid=kid), refkey, algorithms=A, sender_key=refsender)
     raise KeyError(entry)
 
 
-def jwe_call(entry, alg, enc, key, src, sender, token):
+def jwe_call(entry, alg, enc, key, keyarg, sender, token, kid=None, reg=None):
     from joserfc import jwe, jwt
     from joserfc.jwe import JWERegistry
     A = [alg, enc]
-    keyarg = as_src(key, src)
+    K = {"registry": reg} if reg is not None else {"algorithms": A}
+    R = reg if reg is not None else JWERegistry(algorithms=A)
+    cp = lambda x: json.loads(json.dumps(x))        # noqa
     if entry == "EEncCompact":
-        return lambda: jwe.encrypt_compact({"alg": alg, "enc": enc}, b"hello", keyarg, algorithms=A, sender_key=sender)
+        return lambda: jwe.encrypt_compact(hdr(alg, kid, enc=enc), b"hello", keyarg, sender_key=sender, **K)
     if entry == "EJwtEncode":
-        return lambda: jwt.encode({"alg": alg, "enc": enc}, dict(CLAIMS), keyarg, registry=JWERegistry(algorithms=A))
+        return lambda: jwt.encode(hdr(alg, kid, enc=enc), dict(CLAIMS), keyarg, registry=R)
     if entry in ("EEncFlat", "EEncGen"):
-        return lambda: jwe.encrypt_json(jwe_obj(entry, alg, enc), keyarg, algorithms=A, sender_key=sender)
+        return lambda: jwe.encrypt_json(jwe_obj(entry, alg, enc, kid=kid), keyarg, sender_key=sender, **K)
     if entry in JWE_PRE:
-        return lambda: jwe.encrypt_json(jwe_obj(entry, alg, enc, key), None, algorithms=A, sender_key=sender)
+        return lambda: jwe.encrypt_json(jwe_obj(entry, alg, enc, key, kid=kid), None, sender_key=sender, **K)
     if entry == "EDecCompact":
-        return lambda: jwe.decrypt_compact(token, keyarg, algorithms=A, sender_key=sender)
+        return lambda: jwe.decrypt_compact(token, keyarg, sender_key=sender, **K)
     if entry == "EJwtDecode":
-        return lambda: jwt.decode(token, keyarg, registry=JWERegistry(algorithms=A))
+        return lambda: jwt.decode(token, keyarg, registry=R)
     if entry in ("EDecFlat", "EDecGen"):
-        return lambda: jwe.decrypt_json(json.loads(json.dumps(token)), keyarg, algorithms=A, sender_key=sender)
+        return lambda: jwe.decrypt_json(cp(token), keyarg, sender_key=sender, **K)
     raise KeyError(entry)
 
 
@@ -437,6 +517,25 @@ def ops_variants(needed):
     return out
 
 
+def remap_form(rng, d):
+    """vary the KEY FORM (Key / KeySet alg- or kid-selected / callable / raw bytes) and the key SOURCE
+    (generated native / PEM import / JWK import) of a descriptor"""
+    if d.get("entry") in JWE_PRE or d.get("variant"):
+        return d
+    x = rng.random()
+    plain_oct = d["kind"][0] == "oct" and d["use"] is None and d["ops"] is None and d["kalg"] is None and d["kind"][1] > 0
+    if x < 0.18:
+        d["src"] = "SrcKid"
+    elif x < 0.30:
+        d["src"] = "SrcCall"
+    elif x < 0.42 and plain_oct:
+        d["src"] = rng.choice(["SrcText", "SrcTextCall"])
+    if d["kind"][0] != "oct" and d.get("via", "native") == "native":
+        if rng.random() < (0.06 if d["kind"][0] == "RSA" else 0.3):
+            d["via"] = rng.choice(["pem", "jwk"])
+    return d
+
+
 def gen_jws(ctx):
     """-> list of descriptor dicts for JWS / rfc7797 / jwt(JWS) calls"""
     rng = ctx.rng
@@ -445,8 +544,9 @@ def gen_jws(ctx):
     def add(entry, alg, kind, private, use, ops, kalg, src, tag="a", variant=None, must=False):
         if not consistent(use, ops):
             use = None
-        out.append({"fam": "jws", "entry": entry, "alg": alg, "kind": list(kind), "private": private, "use": use,
-                    "ops": ops, "kalg": kalg, "src": src, "tag": tag, "variant": variant, "must": must})
+        out.append(remap_form(rng, {"fam": "jws", "entry": entry, "alg": alg, "kind": list(kind), "private": private,
+                                    "use": use, "ops": ops, "kalg": kalg, "src": src, "tag": tag, "variant": variant,
+                                    "must": must, "via": "native"}))
     for entry in JWS_ENTRIES:
         sign = entry in JWS_SIGN
         need = "sign" if sign else "verify"
@@ -495,6 +595,12 @@ def gen_jws(ctx):
                 add(entry, alg, kind, rng.random() < 0.7, rng.choice([None, "sig", "enc"]),
                     rng.choice(ops_variants(need)), rng.choice([None, None, alg, "HS256", "RS256"]),
                     rng.choice(["SrcKey", "SrcSet"]), tag=rng.choice(["a", "a", "b"]))
+    for alg in JWS_ALGS:
+        fit = jws_fit_kinds(alg)
+        for entries in (sorted(JWS_SIGN), sorted(set(JWS_ENTRIES) - JWS_SIGN)):
+            entry = rng.choice(entries)
+            for op in ALL_OPS:
+                add(entry, alg, rng.choice(fit), True, None, [op], None, "SrcKey", must=True)
     return out
 
 
@@ -507,9 +613,10 @@ def gen_jwe(ctx):
             via="native", must=False):
         if not consistent(use, ops):
             use = None
-        out.append({"fam": "jwe", "entry": entry, "alg": alg, "enc": enc, "kind": list(kind), "private": private,
-                    "use": use, "ops": ops, "kalg": kalg, "src": src, "tag": tag, "sender": sender,
-                    "refkind": list(refkind) if refkind else None, "via": via, "must": must})
+        out.append(remap_form(rng, {"fam": "jwe", "entry": entry, "alg": alg, "enc": enc, "kind": list(kind),
+                                    "private": private, "use": use, "ops": ops, "kalg": kalg, "src": src, "tag": tag,
+                                    "sender": sender, "refkind": list(refkind) if refkind else None, "via": via,
+                                    "must": must}))
 
     def snd(kind, private=True, tag="b", use=None, ops=None):
         return {"kind": list(kind), "private": private, "tag": tag, "use": use, "ops": ops}
@@ -540,11 +647,12 @@ def gen_jwe(ctx):
                 for kind in [k for k in KINDS if k[0] == "oct" and k != good]:
                     add(entry, alg, enc, kind, True, None, None, None, src2())
             if fam == "WRAP":
-                for n in boundary_octets(WRAP_SIZE[alg] // 8):
+                for n in sorted(set(boundary_octets(WRAP_SIZE[alg] // 8)) | {16, 24, 32}):     # and the other AES sizes
                     add(entry, alg, enc, ("oct", 8 * n), True, None, None, None, src2(), must=True)
             if fam == "dir":
                 for e2 in encs:
-                    for n in boundary_octets(ENC_CEK[e2] // 8):
+                    # around the CEK length, and every other (longer or shorter, but valid) AES / CEK length
+                    for n in sorted(set(boundary_octets(ENC_CEK[e2] // 8)) | {16, 24, 32, 48, 64}):
                         add(entry, alg, e2, ("oct", 8 * n), True, None, None, None, "SrcKey", must=True)
             if fam == "RSA":
                 for bits in RSA_BOUNDARY:
@@ -598,6 +706,15 @@ def gen_jwe(ctx):
                     sender=(snd(rng.choice([kind, kind, rng.choice(KINDS)]), private=rng.random() < 0.8,
                                 use=rng.choice([None, "enc", "sig"]))
                             if fam == "1PU" and "Jwt" not in entry and rng.random() < 0.85 else None))
+    for alg in JWE_ALGS:
+        for encrypt in (True, False):
+            entries = [e for e in JWE_ENTRIES if (e in JWE_ENC) == encrypt]
+            entry = rng.choice(entries)
+            enc = rng.choice(["A128CBC-HS256", "A256CBC-HS512"] if jwe_family(alg) == "1PU" else list(ENC_CEK))
+            good = rng.choice(jwe_fit_kinds(alg, enc, encrypt))
+            sender = snd(good) if jwe_family(alg) == "1PU" and "Jwt" not in entry else None
+            for op in ALL_OPS:
+                add(entry, alg, enc, good, True, None, [op], None, "SrcKey", sender=sender, must=True)
     return out
 
 
@@ -809,15 +926,17 @@ class Runner:
         self.tokens = {}
 
     def test_key(self, d):
-        return self.mats.key(d["kind"][0], d["kind"][1], d["tag"], d["private"], params_of(d["use"], d["ops"], d["kalg"]),
-                             d.get("via", "native"))
+        prm = params_of(d["use"], d["ops"], d["kalg"])
+        if d.get("src") == "SrcKid":
+            prm["kid"] = "t0"
+        return self.mats.key(d["kind"][0], d["kind"][1], d["tag"], d["private"], prm, d.get("via", "native"))
 
     def sender_key(self, s):
         if s is None:
             return None
         return self.mats.key(s["kind"][0], s["kind"][1], s["tag"], s["private"], params_of(s["use"], s["ops"], None))
 
-    def run_jws(self, d, key=None):
+    def run_jws(self, d, key=None, shared=None):
         """-> (outcome class, exception, model-args dict) or None when the key cannot be built.
         key: use this (already used) key object instead of a fresh one"""
         entry, alg = d["entry"], d["alg"]
@@ -828,6 +947,7 @@ class Runner:
         except ValueError:
             return None
         sign = entry in JWS_SIGN
+        kid = "t0" if d["src"] == "SrcKid" else None
         token, siglen, mat = None, 0, True
         if not sign:
             fit = jws_fit_kinds(alg)
@@ -838,7 +958,7 @@ class Runner:
                 with warnings.catch_warnings():
                     warnings.simplefilter("ignore")
                     ref = OctKey.import_key(pub.as_pem(private=False))
-                tk = ("pubmac", entry, alg, kind, d["tag"])
+                tk = ("pubmac", entry, alg, kind, d["tag"], kid)
                 mat = True      # the strongest attacker: the MAC is right for that octet string
             else:
                 if kind in fit:
@@ -846,18 +966,18 @@ class Runner:
                 else:
                     refkind, reftag = fit[0], "a"
                 ref = self.mats.key(refkind[0], refkind[1], reftag, True, None)
-                tk = (entry, alg, refkind)
+                tk = (entry, alg, refkind, kid)
                 mat = (kind == refkind and d["tag"] == reftag)
             if tk not in self.tokens:
-                self.tokens[tk] = jws_make_token(entry, alg, ref)
+                self.tokens[tk] = jws_make_token(entry, alg, ref, kid)
             token, siglen = self.tokens[tk]
             if d["variant"] == "cutsig":
                 token, siglen = cut_sig(entry, token), siglen - 1
-        f = jws_call(entry, alg, as_src(key, d["src"]), token)
+        f = jws_call(entry, alg, as_src(key, d["src"], shared), token, kid, (shared or {}).get("jws_reg"))
         out, exc = outcome(f)
         return out, exc, {"info": info, "mat": mat, "siglen": siglen}
 
-    def run_jwe(self, d, key=None):
+    def run_jwe(self, d, key=None, shared=None):
         entry, alg, enc = d["entry"], d["alg"], d["enc"]
         kind = tuple(d["kind"])
         try:
@@ -869,6 +989,7 @@ class Runner:
             return None
         encrypt = entry in JWE_ENC
         fam = jwe_family(alg)
+        kid = "t0" if d["src"] == "SrcKid" else None
         token, mat, epk = None, True, None
         if not encrypt:
             tkinds = jwe_token_kinds(alg, enc)
@@ -882,10 +1003,10 @@ class Runner:
             refsender = None
             if fam == "1PU":
                 refsender = self.mats.key(refkind[0], refkind[1], "b", True, None)
-            tk = (entry, alg, enc, refkind)
+            tk = (entry, alg, enc, refkind, kid)
             if tk not in self.tokens:
                 try:
-                    self.tokens[tk] = jwe_make_token(entry, alg, enc, ref, refsender)
+                    self.tokens[tk] = jwe_make_token(entry, alg, enc, ref, refsender, kid)
                 except Exception:      # joserfc cannot produce such a token (ECDH-1PU+KW with a GCM enc)
                     self.tokens[tk] = None
             token = self.tokens[tk]
@@ -897,7 +1018,7 @@ class Runner:
                 mat = mat and tuple(s["kind"]) == refkind and s["tag"] == "b"
             if fam in ("ES", "1PU"):
                 epk = refkind
-        f = jwe_call(entry, alg, enc, key, d["src"], sender, token)
+        f = jwe_call(entry, alg, enc, key, as_src(key, d["src"], shared), sender, token, kid, (shared or {}).get("jwe_reg"))
         out, exc = outcome(f)
         return out, exc, {"info": info, "sinfo": sinfo, "mat": mat, "epk": epk}
 
@@ -1030,6 +1151,39 @@ def unsafe_texts(mats, rng):
             out.append((lab + " with leading " + n, pre + txt, None))
     out.append(("RFC4716 public key block", b"---- BEGIN SSH2 PUBLIC KEY ----\nAAAA\n---- END SSH2 PUBLIC KEY ----\n", True))
     out.append(("ssh-dss line", b"ssh-dss AAAAB3NzaC1kc3MAAACB", True))
+    # the statement's "PEM/SSH-formatted key text", label by label and prefix by prefix - written from the
+    # formats themselves (RFC 7468 labels, OpenSSH key type names), NOT from joserfc's table
+    body = b"MIIBVQIBADANBgkqhkiG9w0BAQEFAASCAT8wggE7AgEAAkEAq7BFUpkGp3+LQmlQ\n"
+    for lab in ("PRIVATE KEY", "RSA PRIVATE KEY", "EC PRIVATE KEY", "DSA PRIVATE KEY", "ENCRYPTED PRIVATE KEY",
+                "OPENSSH PRIVATE KEY", "PUBLIC KEY", "RSA PUBLIC KEY", "CERTIFICATE"):
+        t = b"-----BEGIN " + lab.encode() + b"-----\n" + body + b"-----END " + lab.encode() + b"-----\n"
+        out.append(("PEM label " + lab, t, True))
+        out.append(("PEM label " + lab + " with leading newline", b"\n" + t, True))
+    out.append(("ssh.com private key block", b"---- BEGIN SSH2 ENCRYPTED PRIVATE KEY ----\nAAAA\n---- END SSH2 ENCRYPTED PRIVATE KEY ----\n", True))
+    for pre in ("ssh-rsa AAAAB3NzaC1yc2EAAAADAQABAAABAQ", "ssh-dss AAAAB3NzaC1kc3MAAACBAP", "ssh-ed25519 AAAAC3NzaC1lZDI1NTE5AAAAI",
+                "ecdsa-sha2-nistp256 AAAAE2VjZHNhLXNoYTItbmlzdHAyNTYAAAAIbmlzdHAyNTY",
+                "ecdsa-sha2-nistp384 AAAAE2VjZHNhLXNoYTItbmlzdHAzODQAAAAIbmlzdHAzODQ",
+                "ecdsa-sha2-nistp521 AAAAE2VjZHNhLXNoYTItbmlzdHA1MjEAAAAIbmlzdHA1MjE"):
+        out.append(("OpenSSH public key line " + pre.split()[0], (pre + " user@host").encode(), True))
+        out.append(("OpenSSH public key line " + pre.split()[0] + " with leading space", (" " + pre + " user@host").encode(), True))
+    # security-key types: not in the statement's list on HEAD ("sk- variants if listed"): recorded only
+    for pre in ("sk-ssh-ed25519@openssh.com AAAAGnNrLXNzaC1lZDI1NTE5QG9wZW5zc2guY29t",
+                "sk-ecdsa-sha2-nistp256@openssh.com AAAAInNrLWVjZHNhLXNoYTItbmlzdHAyNTZAb3BlbnNzaC5jb20"):
+        out.append(("OpenSSH sk key line " + pre.split()[0] + " (not listed)", pre.encode(), None))
+    try:                        # a real X.509 certificate
+        import datetime
+        from cryptography import x509
+        from cryptography.x509.oid import NameOID
+        from cryptography.hazmat.primitives import hashes
+        prv, pub = mats.get("EC", "P-256", "a")
+        name = x509.Name([x509.NameAttribute(NameOID.COMMON_NAME, "c06")])
+        now = datetime.datetime(2026, 1, 1)
+        cert = (x509.CertificateBuilder().subject_name(name).issuer_name(name).public_key(pub).serial_number(1)
+                .not_valid_before(now).not_valid_after(now + datetime.timedelta(days=1)).sign(prv, hashes.SHA256()))
+        out.append(("X.509 certificate PEM", cert.public_bytes(ser.Encoding.PEM), True))
+        out.append(("X.509 certificate DER (as_der)", cert.public_bytes(ser.Encoding.DER), None))
+    except Exception as e:  # noqa
+        out.append(("literal no-x509 %r" % (e,), b"secret", None))
     # ordinary secrets and near misses: must NOT be compared against a demand, only against the model
     for t in [b"", b"secret", b"-----BEGIN", b"-----BEGIN", b"----BEGIN ", b"---- BEGIN", b"-----begin ", b"ssh-rsa", b"ssh-rsa\t",
               b"ssh-ed25519", b"ecdsa-sha2", b"ecdsa-sha2-", b"ecdsa-sha2-nistp256 AAAA", b"xssh-rsa AAAA", b"-", b"-----", b"ssh-",
@@ -1223,6 +1377,15 @@ def run(ctx):
     dist = {}
     cand = {}
     verdicts = {}
+    forms = {}
+
+    missing, nkeyfns = untabled_entry_points()
+    ctx.coverage["key_taking_entry_points"] = {"found_in___all__": nkeyfns, "untabled": missing,
+                                               "tabled": {m: sorted(t) for m, t in ENTRY_TABLE.items()}}
+    for x in missing:
+        ctx.violation({"kind": "untabled-entry-point", "fn": x.split("(")[0]},
+                      "public key-taking function not covered by the C06 check: " + x,
+                      {"no_failing_input_found": True, "broken": "harness entry-point table", "fn": x})
 
     descs = gen_jws(ctx) + gen_jwe(ctx) + gen_multi(ctx)
     if ctx.quick:
@@ -1249,6 +1412,13 @@ def run(ctx):
         ctx.note_case(key)
         dist[d["entry"]] = dist.get(d["entry"], 0) + 1
         verdicts[out] = verdicts.get(out, 0) + 1
+        forms[d.get("src")] = forms.get(d.get("src"), 0) + 1
+        forms["via " + d.get("via", "native")] = forms.get("via " + d.get("via", "native"), 0) + 1
+        if d["entry"] == "J97SerJson" and out in ("EType", "EAttr"):
+            # rfc7797.serialize_json(b64=false) never calls alg.check_key_type: a wrong-type key is refused by the
+            # primitive (TypeError / AttributeError): no token is produced, which the oracle counts as a refusal
+            forms["J97SerJson refused by the primitive (no check_key_type)"] = \
+                forms.get("J97SerJson refused by the primitive (no check_key_type)", 0) + 1
         if out.startswith("EJose ?"):
             ctx.violation({"kind": "unknown-error-class", "cls": out}, "unknown JoseError subclass %s on %s" % (out, describe(d)),
                           {"desc": d})
@@ -1288,9 +1458,16 @@ def run(ctx):
         except ValueError:
             continue
         done = []
+        # KeySet-level and registry-level state: one KeySet object and one registry object per history
+        shared = {}
+        if rng.random() < 0.5:
+            from joserfc.jwe import JWERegistry
+            from joserfc.rfc7797 import JWSRegistry as JWSRegistry97
+            shared["jws_reg"] = JWSRegistry97(algorithms=list(JWS_ALGS))
+            shared["jwe_reg"] = JWERegistry(algorithms=list(JWE_ALGS) + list(ENC_CEK))
         for step in seq:
             run_x = runner.run_jws if step["fam"] == "jws" else runner.run_jwe
-            r = run_x(step, key=obj)
+            r = run_x(step, key=obj, shared=shared)
             rf = run_x(step)                      # the same call with a fresh key object
             if r is None or rf is None:
                 break
@@ -1449,8 +1626,9 @@ def run(ctx):
         if must and not w:
             ctx.violation({"kind": "unsafe-import-not-flagged"},
                           "importing %s as an oct key gave no warning" % label, {"text_hex": text.hex(), "label": label})
-        if must is None and not w and ("leading" in label or "as_der" in label):
-            g = "leading-non-whitespace (BOM, NUL, nbsp, FS)" if "leading" in label else "DER"
+        if must is None and not w and ("leading" in label or "as_der" in label or "sk key line" in label):
+            g = ("OpenSSH sk-* key types" if "sk key line" in label else
+                 "leading-non-whitespace (BOM, NUL, nbsp, FS)" if "leading" in label else "DER")
             gaps[g] = gaps.get(g, 0) + 1
     dist["unsafe_import"] = nwarn
 
@@ -1500,6 +1678,7 @@ def run(ctx):
 
     ctx.coverage["input_distribution"] = dist
     ctx.coverage["verdict_classes"] = verdicts
+    ctx.coverage["key_forms_and_sources"] = forms
     ctx.coverage["rule"] = ("every (entry point, algorithm) pair gets the suitable key, each single defect "
                             "(use, key_ops [], complement, wrong op, public, alg, other material), every EC curve for ES*, "
                             "size variants, unsuitable kinds and random points of the product; thorough: all unsuitable kinds "
